@@ -1,0 +1,106 @@
+//! Read-only verification hooks, only compiled with the `verif` feature (off by default).
+//!
+//! Nothing here changes the behaviour of the library: the hooks expose bookkeeping state of a node, and
+//! report events of the backward pass to an optional thread-local observer.
+
+use crate::array::*;
+
+use std::cell::RefCell;
+
+/// A snapshot of the bookkeeping state of an array handle, and the node it shares with its clones.
+#[derive(Clone, Debug, PartialEq)]
+pub struct VerifState {
+    /// Whether this handle is tracked.
+    pub is_tracked: bool,
+    /// Whether this handle keeps its gradient.
+    pub keep_gradient: bool,
+    /// The consumer count, shared between clones.
+    pub consumer_count: usize,
+    /// Whether a pending delta is stored for the node, shared between clones.
+    pub delta_pending: bool,
+    /// The number of children recorded for the node.
+    pub children: usize,
+    /// Whether the node has a backward operation.
+    pub has_backward_op: bool,
+    /// The number of strong references to the values buffer.
+    pub values_strong: usize,
+    /// Whether a gradient is stored for the node, shared between clones.
+    pub has_gradient: bool,
+}
+
+/// An event of the backward pass, reported to the observer set by `verif_trace`.
+#[derive(Clone, Debug, PartialEq)]
+pub enum VerifEvent {
+    /// A backward pass was started by the user on the node.
+    PassRoot {
+        /// The identifier of the node.
+        node: usize,
+    },
+    /// The derivative closure of the node is about to be invoked.
+    ClosureCall {
+        /// The identifier of the node.
+        node: usize,
+    },
+    /// A delta was delivered from the parent to the child.
+    Deliver {
+        /// The identifier of the delivering node.
+        parent: usize,
+        /// The identifier of the receiving node.
+        child: usize,
+    },
+    /// The delta of the node was added to its stored gradient.
+    Store {
+        /// The identifier of the node.
+        node: usize,
+    },
+}
+
+thread_local! {
+    static OBSERVER: RefCell<Option<Box<dyn FnMut(VerifEvent)>>> = RefCell::new(None);
+}
+
+/// Sets, or clears the observer of backward pass events for the current thread.
+pub fn verif_trace(observer: Option<Box<dyn FnMut(VerifEvent)>>) {
+    OBSERVER.with(|o| *o.borrow_mut() = observer);
+}
+
+/// Reports an event to the observer, if any is set. Events raised by the observer itself are dropped.
+pub(crate) fn emit(event: VerifEvent) {
+    OBSERVER.with(|o| {
+        if let Ok(mut o) = o.try_borrow_mut() {
+            if let Some(f) = o.as_mut() {
+                f(event);
+            }
+        }
+    });
+}
+
+impl Array {
+    /// Returns an identifier of the node, which is shared by all clones of the array.
+    pub fn verif_node_id(&self) -> usize {
+        Rc::as_ptr(&self.gradient) as *const u8 as usize
+    }
+
+    /// Returns the bookkeeping state of the handle, and its node.
+    pub fn verif_state(&self) -> VerifState {
+        let delta = self.delta.take();
+        let delta_pending = delta.is_some();
+        self.delta.set(delta);
+
+        VerifState {
+            is_tracked: self.is_tracked.get(),
+            keep_gradient: self.keep_gradient.get(),
+            consumer_count: self.consumer_count.get(),
+            delta_pending,
+            children: self.children.len(),
+            has_backward_op: self.backward_op.is_some(),
+            values_strong: Rc::strong_count(&self.values),
+            has_gradient: self.gradient.try_borrow().map_or(true, |g| g.is_some()),
+        }
+    }
+
+    /// Returns the children recorded for the node.
+    pub fn verif_children(&self) -> &[Array] {
+        &self.children
+    }
+}
